@@ -15,7 +15,7 @@ TRUSTED_BASE = ["modelled not verified: gimli (EhHdrTable::lookup by contract, F
 
 def generate(rng, tier):
     out = []
-    sizes = [0, 1, 2, 3, 7, 40, 200] if tier == "quick" else [0, 1, 2, 3, 5, 17, 100, 500, 1500, 4000] * 6
+    sizes = [0, 1, 2, 3, 7, 40, 200] if tier == "quick" else [0, 1, 2, 3, 5, 17, 100, 300] * 6 + [800, 1500, 4000]
     for idx, nf in enumerate(sizes):
         arch = "x86" if idx % 2 == 0 else "a64"
         gran = 8 if arch == "x86" else 16
@@ -67,6 +67,8 @@ def generate(rng, tier):
                 s.meta[lines[0]] = {"trio": lines, "cover": c, "sp": sp, "arch": arch, "kind": kind, "deps": lines[1:],
                                     "empty": not fdes}
                 s.tags[lines[0]] = "%s:%s:%s" % (arch, kind, cls)
+        if nf > 400:
+            s.nomodel = True        # the extracted model rebuilds and sorts the index on every call: judged only (triple oracle)
         out.append(("fdeset-%s-%d-%d" % (arch, nf, idx), s))
     return out
 
